@@ -127,6 +127,20 @@ structure Facts where
   ambiguousCond : String
   /-- the `k` of `len(ti)-k` in those two conditions (0 up to efcbde2, 1 since: the depth of the field) -/
   fieldDepthMinus : Nat
+  /-- cfg.go `case selectorExpr`: `fieldCount(name, len(ti)-1) > 1` — another field of that name at the
+      depth of the field found — is reported as an ambiguous selector (since 43e97a5) -/
+  fieldAmbiguityCheck : Bool
+  /-- type.go `implements`: `… && !t.needsPtrFor(it)` — a method with a pointer receiver that is not
+      promoted through an embedded pointer is not in the method set of a value (since 79ed061) -/
+  implementsChecksRecv : Bool
+  /-- typecheck.go `typeAssertionExpr`: the pointer-receiver rejection applies to methods declared on
+      the type itself only (`len(index) == 0`, since 5c3b0c5) -/
+  assertPtrOwnOnly : Bool
+  /-- cfg.go post-order `case typeSwitch`: the clause types are checked with `typeAssertionExpr` (since 5c3b0c5) -/
+  tswitchCasesChecked : Bool
+  /-- run.go `typeAssert`: the wrapper of an assertion to a host interface is made over the value the
+      interface holds (`genInterfaceWrapperValue(val.node, rtype, held)`, since ccca582) -/
+  assertHostWrapsHeld : Bool
   /-- run.go `genFunctionWrapper`: how the receiver reaches the frame of the method -/
   recvBind : RecvBind
   /-- value.go `genValueInterface`: an addressable value is copied before it is wrapped -/
@@ -275,6 +289,16 @@ def lookupFieldF (F : Facts) (D : Decls) : Nat → Nat → String → Option FHi
 
 def lookupFieldY (F : Facts) (D : Decls) (t : Nat) (x : String) : Option FHit := lookupFieldF F D D.length t x
 
+/-- `(t *itype) fieldCount(name, depth)`: the number of fields of that name declared exactly `depth`
+    levels down the embedded struct fields -/
+def fieldCountY (D : Decls) : Nat → Nat → String → Nat
+  | 0, t, x => if (fieldIndex (fieldsOf D t) x 0).isSome then 1 else 0
+  | d + 1, t, x => ((fieldsOf D t).map (fun f => if f.isEmb then fieldCountY D d f.typ x else 0)).sum
+
+/-- the second half of the ambiguity condition of the selector case (since 43e97a5) -/
+def fieldTieY (F : Facts) (D : Decls) (t : Nat) (x : String) (fh : FHit) : Bool :=
+  F.fieldAmbiguityCheck && decide (fieldCountY D (fh.path.length - 1) t x > 1)
+
 /-! ### the selector case of cfg.go -/
 
 inductive Sel where
@@ -291,17 +315,17 @@ def methodSelY (F : Facts) (D : Decls) (t : Nat) (x : String) (mh : MHit) : Sel 
 
 /-- `case selectorExpr` for a struct operand followed by `matchSelectorMethod`:
     a field found by `lookupField` (path `ti`) is used unless `methodDepth` `d` satisfies
-    `0 ≤ d < len(ti)-k` (then the method is used) or `d == len(ti)-k` ("ambiguous selector");
-    `k = F.fieldDepthMinus`. -/
+    `0 ≤ d < len(ti)-k` (then the method is used) or `d == len(ti)-k` or, since 43e97a5,
+    `fieldCount(name, len(ti)-1) > 1` ("ambiguous selector"); `k = F.fieldDepthMinus`. -/
 def selectY (F : Facts) (D : Decls) (t : Nat) (x : String) : Sel :=
   match lookupFieldY F D t x with
   | some fh =>
     match lookupMethodY F D t x with
     | some mh =>
       if mh.depth < fh.path.length - F.fieldDepthMinus then methodSelY F D t x mh
-      else if mh.depth = fh.path.length - F.fieldDepthMinus then .ambiguous
+      else if mh.depth = fh.path.length - F.fieldDepthMinus || fieldTieY F D t x fh then .ambiguous
       else .field fh
-    | none => .field fh
+    | none => if fieldTieY F D t x fh then .ambiguous else .field fh
   | none =>
     match lookupMethodY F D t x with
     | some mh => methodSelY F D t x mh
@@ -372,8 +396,26 @@ def ifaceMethodsY (D : Decls) (i : Nat) : List (String × Nat) := ifaceMethodsF 
 def containsY (F : Facts) (m n : List (String × Nat)) : Bool :=
   n.all (fun k => m.any (fun p => p.1 == k.1 && (F.containsNamesOnly || p.2 == k.2)))
 
-/-- `(t *itype) implements(it)` for an interpreted struct type (or pointer to it) -/
-def implementsY (F : Facts) (D : Decls) (t : Nat) (ims : List (String × Nat)) : Bool := containsY F (methodsY D t) ims
+/-- the index path crosses a field embedded by pointer -/
+def pathViaPtr (D : Decls) : Nat → List Nat → Bool
+  | _, [] => false
+  | t, i :: rest =>
+    match (fieldsOf D t)[i]? with
+    | some f => f.kind == .embPtr || pathViaPtr D f.typ rest
+    | none => false
+
+/-- `(t *itype) needsPtrFor(it)`: the type is not a pointer and one of the interface's methods, as
+    `lookupMethod` finds it, has a pointer receiver and is not promoted through an embedded pointer -/
+def needsPtrY (F : Facts) (D : Decls) (t : Nat) (isPtr : Bool) (ims : List (String × Nat)) : Bool :=
+  !isPtr && ims.any (fun k =>
+    match lookupMethodY F D t k.1 with
+    | some h => h.meth.ptr && !pathViaPtr D t h.path
+    | none => false)
+
+/-- `(t *itype) implements(it)` for an interpreted struct type (`isPtr`: pointer to it): the names of
+    the interface's methods are in `methods()` and, since 79ed061, none of them needs a pointer -/
+def implementsY (F : Facts) (D : Decls) (t : Nat) (isPtr : Bool) (ims : List (String × Nat)) : Bool :=
+  containsY F (methodsY D t) ims && !(F.implementsChecksRecv && needsPtrY F D t isPtr ims)
 
 /-! ### type switch: clauses are tested in source order, the first matching one is taken -/
 
